@@ -25,6 +25,8 @@ pub enum HOp {
     Merge { srcs: Vec<usize>, probe: bool },
     Clear { t: usize },
     Clone { t: usize },
+    /// dst.clone_from(&src): the destination keeps nothing of its own history
+    CloneFrom { src: usize, dst: usize },
     Copy { src: usize, h: usize, dst: usize, via_owned: bool },
 }
 
@@ -314,6 +316,43 @@ impl HuffScen {
                         }
                     }
                 }
+                HOp::CloneFrom { src, dst } => {
+                    if pop.len() < 2 {
+                        continue;
+                    }
+                    let si = src % pop.len();
+                    let mut di = dst % pop.len();
+                    if di == si {
+                        di = (si + 1) % pop.len();
+                    }
+                    let r = {
+                        let (a, b) = if si < di {
+                            let (x, y) = pop.split_at_mut(di);
+                            (&x[si], &mut y[0])
+                        } else {
+                            let (x, y) = pop.split_at_mut(si);
+                            (&y[0], &mut x[di])
+                        };
+                        catch(|| b.c.clone_from(&a.c))
+                    };
+                    if let Err(p) = r {
+                        out.fail = fail("clone-panicked", step, p.short());
+                        return out;
+                    }
+                    let (coded, accept, lens, stats, model, generation) = {
+                        let s = &pop[si];
+                        (s.coded, s.accept.clone(), s.lens.clone(), s.stats.clone(), s.model.clone(), s.generation)
+                    };
+                    let d = &mut pop[di];
+                    d.coded = coded;
+                    d.accept = accept;
+                    d.lens = lens;
+                    d.stats = stats;
+                    d.model = model;
+                    d.generation = generation;
+                    out.hit("clone_from");
+                    reread!(di, true, step);
+                }
                 HOp::Copy { src, h, dst, via_owned } => {
                     if pop.len() < 2 {
                         continue;
@@ -532,7 +571,8 @@ impl Scenario for HuffScen {
         }
         for i in 0..n {
             let wcopy = if self.prop == 14 { 40 } else { 6 };
-            let c = if i == 0 { 0 } else if !trained { rng.below(3) } else { rng.weighted(&[1, 60, if self.prop == 14 { 16 } else { 8 }, 3, 3, wcopy]) };
+            let wclone = if self.prop == 9 { 20 } else { 3 };
+            let c = if i == 0 { 0 } else if !trained { rng.below(3) } else { rng.weighted(&[1, 60, if matches!(self.prop, 14 | 9) { 16 } else { 8 }, 3, wclone, wcopy]) };
             let t = rng.below(8);
             match c {
                 0 => {
@@ -552,7 +592,7 @@ impl Scenario for HuffScen {
                     ops.push(HOp::Merge { srcs: (0..ns).map(|_| rng.below(8)).collect(), probe: rng.chance(7, 8) });
                 }
                 3 => ops.push(HOp::Clear { t }),
-                4 => ops.push(HOp::Clone { t }),
+                4 => ops.push(if rng.coin() { HOp::Clone { t } } else { HOp::CloneFrom { src: t, dst: rng.below(8) } }),
                 _ => ops.push(HOp::Copy { src: t, h: rng.below(1 << 16), dst: rng.below(8), via_owned: rng.coin() }),
             }
         }
@@ -581,6 +621,7 @@ impl Scenario for HuffScen {
             HOp::Merge { srcs, probe } => json!({"op":"Merge","srcs":srcs,"probe":probe}),
             HOp::Clear { t } => json!({"op":"Clear","t":t}),
             HOp::Clone { t } => json!({"op":"Clone","t":t}),
+            HOp::CloneFrom { src, dst } => json!({"op":"CloneFrom","src":src,"dst":dst}),
             HOp::Copy { src, h, dst, via_owned } => json!({"op":"Copy","src":src,"h":h,"dst":dst,"via_owned":via_owned}),
         }
     }
@@ -592,6 +633,7 @@ impl Scenario for HuffScen {
             "Merge" => HOp::Merge { srcs: j.get("srcs")?.as_array()?.iter().map(|x| x.as_u64().map(|y| y as usize)).collect::<Option<Vec<_>>>()?, probe: j.get("probe").and_then(J::as_bool).unwrap_or(true) },
             "Clear" => HOp::Clear { t: u("t")? },
             "Clone" => HOp::Clone { t: u("t")? },
+            "CloneFrom" => HOp::CloneFrom { src: u("src")?, dst: u("dst")? },
             "Copy" => HOp::Copy { src: u("src")?, h: u("h")?, dst: u("dst")?, via_owned: j.get("via_owned")?.as_bool()? },
             _ => return None,
         })
